@@ -309,3 +309,79 @@ Proof.
   intro k. unfold s1'. rewrite (Hc k). unfold s2. rewrite srun_cache. unfold overlay.
   cbn [scratch_new cache aget]. destruct (last_action ops k) as [[v|]|]; reflexivity.
 Qed.
+
+(* ------------------------------------------------------------------ *)
+(* copy(): the wrapped entries overlaid by the buffer, DELETED entries left out *)
+Lemma aget_map_some (m : amap bytes) k :
+  aget (map (fun e : bytes * bytes => (fst e, Some (snd e))) m) k =
+  match aget m k with Some v => Some (Some v) | None => None end.
+Proof.
+  induction m as [|[k0 v0] m IH]; cbn [map aget fst snd]; [reflexivity|].
+  destruct (bytes_eqb k k0); [reflexivity|exact IH].
+Qed.
+
+Lemma akeys_map_some (m : amap bytes) :
+  akeys (map (fun e : bytes * bytes => (fst e, Some (snd e))) m) = akeys m.
+Proof. unfold akeys. rewrite map_map. reflexivity. Qed.
+
+Lemma fold_aset_spec (c : amap (option bytes)) : forall (acc : amap (option bytes)) k,
+  NoDup (akeys c) ->
+  aget (fold_left (fun (acc : amap (option bytes)) (e : bytes * option bytes) => aset acc (fst e) (snd e)) c acc) k =
+  match aget c k with Some a => Some a | None => aget acc k end.
+Proof.
+  induction c as [|[k0 a] c IH]; intros acc k Hnd; cbn [fold_left aget fst snd]; [reflexivity|].
+  cbn [akeys map fst] in Hnd. inversion Hnd as [|? ? Hnotin Hnd']; subst.
+  rewrite (IH _ k Hnd'). destruct (bytes_eqb k k0) eqn:E.
+  - apply bytes_eqb_eq in E. subst k0. rewrite (aget_notin c k Hnotin), aget_aset, bytes_eqb_refl. reflexivity.
+  - destruct (aget c k); [reflexivity|]. rewrite aget_aset, E. reflexivity.
+Qed.
+
+Lemma fold_aset_nodup (c : amap (option bytes)) : forall (acc : amap (option bytes)),
+  NoDup (akeys acc) ->
+  NoDup (akeys (fold_left (fun (acc : amap (option bytes)) (e : bytes * option bytes) => aset acc (fst e) (snd e)) c acc)).
+Proof.
+  induction c as [|[k0 a] c IH]; intros acc Hnd; cbn [fold_left]; [exact Hnd|].
+  apply IH. apply akeys_aset_nodup. exact Hnd.
+Qed.
+
+Lemma aget_filter_some (m : amap (option bytes)) k : NoDup (akeys m) ->
+  aget (flat_map (fun e : bytes * option bytes => match snd e with Some v => [(fst e, v)] | None => [] end) m) k =
+  match aget m k with Some (Some v) => Some v | _ => None end.
+Proof.
+  induction m as [|[k0 a] m IH]; intro Hnd; cbn [flat_map aget fst snd]; [reflexivity|].
+  cbn [akeys map fst] in Hnd. inversion Hnd as [|? ? Hnotin Hnd']; subst.
+  destruct a as [v|]; cbn [app aget].
+  - destruct (bytes_eqb k k0); [reflexivity|exact (IH Hnd')].
+  - rewrite (IH Hnd'). destruct (bytes_eqb k k0) eqn:E; [|reflexivity].
+    apply bytes_eqb_eq in E. subst k0. rewrite (aget_notin m k Hnotin). reflexivity.
+Qed.
+
+Lemma scopy_spec s k : NoDup (akeys (cells (wrapped s))) -> NoDup (akeys (cache s)) ->
+  aget (scopy s) k = match aget (cache s) k with
+                     | Some (Some v) => Some v
+                     | Some None => None
+                     | None => aget (cells (wrapped s)) k
+                     end.
+Proof.
+  intros Hw Hc. unfold scopy. rewrite aget_filter_some.
+  - rewrite (fold_aset_spec (cache s) _ k Hc), aget_map_some.
+    destruct (aget (cache s) k) as [[v|]|]; try reflexivity.
+    destruct (aget (cells (wrapped s)) k); reflexivity.
+  - apply fold_aset_nodup. rewrite akeys_map_some. exact Hw.
+Qed.
+
+(* property C17: what copy() returns inside a batch *)
+Lemma copy_spec w ops k : NoDup (akeys (cells w)) ->
+  aget (scopy (fst (srun (scratch_new w) ops))) k =
+  match last_action ops k with
+  | Some (Some v) => Some v
+  | Some None => None
+  | None => aget (cells w) k
+  end.
+Proof.
+  intro Hw. rewrite scopy_spec.
+  - rewrite srun_cache, srun_wrapped. unfold overlay. cbn [scratch_new cache wrapped aget].
+    destruct (last_action ops k) as [[v|]|]; reflexivity.
+  - rewrite srun_wrapped. exact Hw.
+  - apply srun_cache_nodup. constructor.
+Qed.
